@@ -3,6 +3,7 @@ import Pm.FrameStutter
 import Pm.FrameCli
 import Pm.FrameMulti
 import Pm.FrameEx
+import Pm.TwoRunEx
 /-! # C05 — one sick device does not disturb the others
 
 *"While one device is slow, silent, disconnected, refusing connections or emitting garbage, requests from any client whose
@@ -36,7 +37,8 @@ Vocabulary (helper modules `Pm/FrameDev`, `FrameOracle`, `FrameRel`, `FrameConn`
 Ranking: frame (done) ▸ concurrency (done) ▸ non-interference of one pass (device phase: done; the client phase is a
 hypothesis in general, see `C05_noninterference_pass_partial`; discharged for a quiet client phase — requests in flight —
 in `C05_noninterference_inflight_partial`) ▸ any number of such passes (`C05_noninterference_passes_partial`) ▸ stutter (done
-for a device stalled in `expect`) ▸ client input during the run, descriptor renaming (not attempted). -/
+for a device stalled in `expect`) ▸ client input during the run (§5: `C05_noninterference`, `C05_noninterference_passes`: a general
+client phase, with the observers of `B` excluded) ▸ descriptor renaming (not attempted: the counters stay a hypothesis). -/
 namespace Pm.Props.C05
 open Pm Pm.Client Pm.Daemon
 open Pm.Dev2 (Oracle Dev Action cell SAgree QOn QOff ActsOK NoMis Stalled)
@@ -418,5 +420,198 @@ theorem C05_stutter (p : PassIn) (a : DevAcc) (nd : Bytes × Dev) (hd : a.dead =
 example : Stalled Ex.devB Ex.pin.now ∧ NoEvent Ex.pin Ex.devB :=
   ⟨⟨rfl, ⟨Ex.onAct Ex.plugB 2 1, [], 1, 1000, rfl, rfl, by decide, rfl⟩, rfl, ⟨rfl, rfl, rfl⟩, rfl, Or.inl rfl⟩,
    fun _ _ e he => by simp [Ex.pin] at he⟩
+
+/-! ## 5. Non-interference with a general client phase
+
+Helper modules: `Pm/TwoRun.lean` (every stage of one client's share of `cli_post_poll` in two related worlds), `Pm/TwoRunC05.lean`
+(`NotObs`, the relation `MRel`, one pass, any number of passes), `Pm/TwoRunEx.lean` (Boolean checkers, example).
+
+Vocabulary:
+
+* `PB` — the plugs of the sick device `B` (position `j` of the device list); `F : Nat → Bool` — the descriptors of the clients that
+  are **not** tracked.  A *tracked* client (descriptor outside `F`) has the same record in both runs; an untracked one may
+  have actions in flight on `B` and differ between the runs (different replies, different command state);
+* `NotObs PB als line` — the request line does not observe `B` (spelled out in `C05_NotObs_spelled`); `Touch PB bn` — the
+  target list `bn` names a node of `B`; `Hit PB t` — the selection of a `device` query covers `B`;
+* `Inert envs c` — nothing arrives from client `c` in this pass (descriptor not reported readable or hung up, no complete line
+  buffered); it may be written to and it may be destroyed;
+* `MRel Q F j PB w w'` — the relation between the two worlds between passes (`C05_MRel_spelled`);
+* `CliHyps`, `DevHyps` — what is assumed of the client phase / the device phase of one pass (`C05_hyps_spelled`);
+  `servedIn w p` — the clients served in the pass (the table, and the client accepted in this pass);
+  `turnLines c e` — the complete request lines `_handle_input` finds for `c` in this pass. -/
+open Pm.Daemon.TwoRun in
+/-- **Which request lines observe `B`.**  Following the cascade of `_parse_input` on the stripped request string `str`: an
+    over-long line, `help`, `nodes`, `telemetry`, `exprange`, `quit` and an unknown command do not.  A power command or query
+    with a target list does not iff none of its alias-expanded targets is a node of a plug of `B`.  A `device` query with an
+    argument does not iff the argument selects no node of `B`.  A bare `status`/`temp`/`beacon` (all configured nodes) and a
+    bare `device` (all devices) are counted as observing `B` (the first clause can hold only if `B` has no node at all).
+
+    (`telemetry` does not observe `B` by itself: `305` lines echo the traffic of the device an action *of that client* runs
+    on, and a tracked client has no action on `B`.) -/
+theorem C05_NotObs_spelled (PB : List Pm.Dev2.Plug) (als : List (Name × List Name)) (line : Bytes) :
+    NotObs PB als line ↔
+      (¬ ClientPf.TooLong line → casePrefix kwHelp (ClientPf.reqStr line) = false → casePrefix kwNodes (ClientPf.reqStr line) = false →
+       casePrefix kwTelemetry (ClientPf.reqStr line) = false → casePrefix kwExprange (ClientPf.reqStr line) = false →
+       casePrefix kwQuit (ClientPf.reqStr line) = false →
+       match ClientPf.plMatch (ClientPf.reqStr line) with
+       | none =>
+         if casePrefix kwStatus (ClientPf.reqStr line) || casePrefix kwTemp (ClientPf.reqStr line) || casePrefix kwBeacon (ClientPf.reqStr line)
+         then ∀ names : List Name, Touch PB (names.map ofChars) = false
+         else ∀ a, ClientPf.plDevArg (ClientPf.reqStr line) = some a → Hit PB (ClientPf.devTarg a) = false
+       | some (_, arg) => ∀ hl, createR (toChars arg) = .ok hl → Touch PB ((expAliases als (expand hl)).map ofChars) = false) :=
+  Iff.rfl
+
+open Pm.Daemon.TwoRun in
+/-- **One whole pass, clients typing.**  Two worlds `w`, `w'` related by `MRel` (they differ in device `B` at position `j`, in
+    the arglist entries of `B`'s nodes, and in the records of the untracked clients) and two pass inputs `p`, `p'`.
+
+    Client phase (`CliHyps`): the same `accept` verdict; the same events on every descriptor outside `F`; a client accepted
+    in this pass is tracked; **every request line a tracked client gets processed in this pass does not observe `B`**
+    (`NotObs`) — otherwise the lines are arbitrary: commands and queries on other devices, `help`, `nodes`, `telemetry`,
+    `exprange`, `quit`, junk, several per pass —; the untracked clients are `Inert` in this pass; both worlds satisfy the id
+    discipline (reachable worlds do, `C11_ids`).
+
+    Device phase (`DevHyps`, stated on the worlds the client phase leaves, as in `C05_noninterference_pass_partial` — but
+    *without* the agreement hypotheses `hcli hgok hst hn1..3 hdevs`, which are now proved): same clock; the other devices
+    have the same events, sit on `Q`-nodes and carry `Q`-plugs; `B` sits on no
+    `Q`-node; regex answers segmented `xp ++ xB ++ xq` / `xp ++ xB' ++ xq`; no modelled `assert`; the client phase did not end
+    the process (`hostlist` sort assertion, finding F19).  `hQB`: every node outside `Q` is a node of `B`.
+
+    THE THREE GLOBAL COUPLINGS, as they appear here.
+    1. *Descriptor counters* (`DevHyps.c1 c2 c3`): `nsock`/`npair`/`nfork` are global, so when `B` reconnects it shifts the
+       descriptor and pid *numbers* later handed to other devices.  Hypothesis: after `B`'s turn the three counters agree
+       in the two runs (`B` consumed the same number of descriptors).  A comparison modulo a renaming of descriptor numbers
+       was not attempted; this hypothesis excludes runs in which the sick `B` reconnects more (or less) often than the healthy one
+       within a pass.
+    2. *Nodes wired to two devices* share an `Arg` entry: `DevHyps.others` (`QOn`: the other devices sit on `Q`-nodes only),
+       `DevHyps.hB` (`QOff`: `B` sits on no `Q`-node) and `hQB` make `Q` separate `B`'s nodes from everybody else's; stores
+       are compared on `Q`-entries only (`SAgree Q`).
+    3. *Arglist id 0* (the internal login/ping actions carry the id of the first command): no hypothesis is needed here
+       because stores are compared node-wise, not arglist-wise (contrast item 3 of `C05_frame_device`).
+
+    Then the relation holds again after the pass.  By `C05_MRel_spelled`: every tracked client has the same record (output
+    buffer, command in progress, flags) and was written the same bytes, every device other than `B` is in the same state,
+    the stores agree on all nodes not wired to `B`. -/
+theorem C05_noninterference (Q : Bytes → Bool) (F : Nat → Bool) (j : Nat) (PB : List Pm.Dev2.Plug) (w w' : W) (p p' : PassIn)
+    (xp xB xB' xq : List Pm.Dev2.RxCall) (hQB : ∀ nb, Q nb = false → ∃ pl ∈ PB, pl.node = some nb)
+    (hr : MRel Q F j PB w w') (hc : CliHyps F PB w w' p p')
+    (hd : DevHyps Q F j (cliPostPoll w p.acc p.envs) (cliPostPoll w' p'.acc p'.envs) p p' xp xB xB' xq) :
+    MRel Q F j PB (daemonPass w p).1 (daemonPass w' p').1 :=
+  pass_gen Q F j PB w w' p p' xp xB xB' xq hQB hr hc hd
+
+open Pm.Daemon.TwoRun in
+/-- what `MRel` says, spelled out.  In reachable worlds (`IdsFresh`): a client of `w` on a descriptor outside `F` has the very
+    same record in `w'`; the bytes written to its descriptor in the last pass are the same; the device lists have the same
+    length and agree — stale store copies apart — everywhere but at position `j`; the stores agree on `Q`-nodes; the
+    commands of the tracked clients target `Q`-nodes only, and no tracked client has an action queued on `B`. -/
+theorem C05_MRel_spelled (Q : Bytes → Bool) (F : Nat → Bool) (j : Nat) (PB : List Pm.Dev2.Plug) (w w' : W)
+    (h : MRel Q F j PB w w') (hi' : Isolation.IdsFresh w') :
+    (∀ g c, cliRec w g = some c → F c.fd = false → cliRec w' g = some c) ∧
+    (∀ fd, F fd = false → ClientPf.written w'.sys fd = ClientPf.written w.sys fd) ∧
+    (∀ i, i ≠ j → (w.devs[i]?).map strip = (w'.devs[i]?).map strip) ∧ w.devs.length = w'.devs.length ∧
+    SAgree Q w.store w'.store ∧
+    (w'.cfg = w.cfg ∧ w'.alNext = w.alNext ∧ w'.nextId = w.nextId ∧ w'.nsock = w.nsock ∧ w'.npair = w.npair ∧ w'.nfork = w.nfork ∧
+      w.exited = false ∧ w'.exited = false) ∧
+    (∀ B B', w.devs[j]? = some B → w'.devs[j]? = some B' → B.1 = B'.1 ∧ B.2.plugs = PB ∧ B'.2.plugs = PB) ∧
+    w'.clients.filter (nonF F) = w.clients.filter (nonF F) ∧
+    (∀ c ∈ w.clients, F c.fd = false → ∀ k, c.cmd = some k → NamesQ Q k.names) ∧
+    (∀ B, w.devs[j]? = some B → ∀ x ∈ B.2.acts, ∀ c ∈ w.clients, F c.fd = false → x.clientId ≠ c.id) ∧
+    (∀ B', w'.devs[j]? = some B' → ∀ x ∈ B'.2.acts, ∀ c ∈ w'.clients, F c.fd = false → x.clientId ≠ c.id) :=
+  ⟨(h.tracked hi').1, (h.tracked hi').2.1, (h.tracked hi').2.2.1, (h.tracked hi').2.2.2.1, (h.tracked hi').2.2.2.2,
+   ⟨h.cfg, h.alNext, h.nextId, h.nsock, h.npair, h.nfork, h.ex, h.ex'⟩, h.devs.2, h.tab, h.gok, h.nob, h.nob'⟩
+
+open Pm.Daemon.TwoRun in
+/-- what the hypotheses about the client phase of one pass say, spelled out -/
+theorem C05_hyps_spelled (F : Nat → Bool) (PB : List Pm.Dev2.Plug) (w w' : W) (p p' : PassIn) (h : CliHyps F PB w w' p p') :
+    p'.acc = p.acc ∧ (∀ fd, F fd = false → p'.envs.find? (·.fd == fd) = p.envs.find? (·.fd == fd)) ∧
+    F (1000 + w.nacc) = false ∧
+    (∀ c ∈ servedIn w p, F c.fd = false → ∀ l ∈ turnLines c (p.envs.find? (·.fd == c.fd)), NotObs PB w.cfg.aliases l) ∧
+    (∀ c ∈ w.clients, F c.fd = true → Inert p.envs c) ∧ (∀ c ∈ w'.clients, F c.fd = true → Inert p'.envs c) ∧
+    Isolation.IdsFresh w ∧ Isolation.IdsFresh w' :=
+  ⟨h.acc, h.evs, h.newfd, h.lines, h.inert, h.inert', h.ids, h.ids'⟩
+
+open Pm.Daemon.TwoRun in
+/-- **Any number of passes, clients typing.**  `GenRun`: every pass of the two runs (each pass given with the regex answers
+    recorded for it) satisfies `CliHyps` and `DevHyps`.  Then `MRel` holds after every prefix of the runs: pass by pass, every
+    tracked client has the same record and is written the same bytes, every healthy device goes through the same states —
+    however device `j` behaves in the two runs and whatever the tracked clients type, as long as it does not observe `B`.
+
+    WHAT IS STILL ASSUMED (and would make a stronger theorem if derived): the descriptor counters after `B`'s turn agree
+    (coupling 1 above: excludes a different number of reconnects of `B` in the two runs within a pass); the untracked clients
+    type nothing (a client with a request in flight on the sick device that goes on typing *does* influence the others: its
+    next line is answered `208` in one run and executed in the other — a genuine flow, not a defect:
+    `C05_observer_typing_counterexample`); `ActsOK` (the plugs the queued actions of the other devices carry are `Q`-plugs) is
+    stated on the world each client phase leaves instead of being derived as an invariant.  ("No tracked client has an action
+    queued on `B`" *is* an invariant: `MRel.nob`, kept because the tracked clients' lines do not observe `B`.)  Equality of *real* completion times is outside the model (time is an input, equal in both runs by
+    `SameClock`); the model-level timing fact is `C05_reply_same_pass`. -/
+theorem C05_noninterference_passes (Q : Bytes → Bool) (F : Nat → Bool) (j : Nat) (PB : List Pm.Dev2.Plug)
+    (hQB : ∀ nb, Q nb = false → ∃ pl ∈ PB, pl.node = some nb) (w w' : W)
+    (l : List ((PassIn × List Pm.Dev2.RxCall) × (PassIn × List Pm.Dev2.RxCall)))
+    (hr : MRel Q F j PB w w') (h : GenRun Q F j PB w w' l) (n : Nat) :
+    MRel Q F j PB (passes w ((l.take n).map (·.1))) (passes w' ((l.take n).map (·.2))) :=
+  passes_gen Q F j PB hQB w w' (l.take n) hr (h.take n)
+
+open Pm.Daemon.TwoRun in
+/-- **"… within the same time", model level.**  `replyPassX w ps g` is the index of the first pass in which client `g`'s command in
+    progress is completed (final reply queued, `cmd` cleared).  For a client that is tracked at every prefix of the run —
+    it has a record on a descriptor outside `F`, or no record at all — it is the same in both runs. -/
+theorem C05_reply_same_pass (Q : Bytes → Bool) (F : Nat → Bool) (j : Nat) (PB : List Pm.Dev2.Plug)
+    (hQB : ∀ nb, Q nb = false → ∃ pl ∈ PB, pl.node = some nb) (w w' : W)
+    (l : List ((PassIn × List Pm.Dev2.RxCall) × (PassIn × List Pm.Dev2.RxCall)))
+    (hr : MRel Q F j PB w w') (h : GenRun Q F j PB w w' l) (hi' : Isolation.IdsFresh w') (g : Nat)
+    (hg : ∀ n, (∃ c, cliRec (passes w ((l.take n).map (·.1))) g = some c ∧ F c.fd = false) ∨
+      (cliRec (passes w ((l.take n).map (·.1))) g = none ∧ cliRec (passes w' ((l.take n).map (·.2))) g = none)) :
+    replyPassX w' (l.map (·.2)) g = replyPassX w (l.map (·.1)) g := by
+  apply replyPassX_congr w w' (l.map (·.1)) (l.map (·.2)) g (by simp)
+  intro n
+  rw [← List.map_take, ← List.map_take]
+  have hm := C05_noninterference_passes Q F j PB hQB w w' l hr h n
+  rcases hg n with ⟨c, hc, hF⟩ | ⟨h1, h2⟩
+  · rw [hc]
+    exact (hm.tracked (passes_ids w' _ hi')).1 g c hc hF
+  · rw [h1, h2]
+
+/- non-vacuity (`Pm/TwoRunEx.lean`).  Worlds `wa` (`B` healthy, waiting) and `wb` (`B'` with garbage in its buffer), the three
+   nodes configured; client 1 (descriptor 1000, `on a1` in flight on `A`) is tracked, client 2 (descriptor 1001, `on b1` in flight
+   on `B`) is not.  Pass 1: client 1 sends `help` (answered 208), `A` completes its command.  Pass 2: a third client connects;
+   client 1 is written to and sends `on a1` — a new action is queued on `A` — and `device a1` (208).  `rel0`, `goodG` prove the
+   hypotheses; after both passes client 1 holds the same record in both runs and `A`'s queue holds its new action in both. -/
+example : Pm.Daemon.TwoRun.MRel Ex.Q Pm.Daemon.TwoRun.Ex.FB 1 Pm.Daemon.TwoRun.Ex.PBx Pm.Daemon.TwoRun.Ex.wa Pm.Daemon.TwoRun.Ex.wb ∧
+    Pm.Daemon.TwoRun.GenRun Ex.Q Pm.Daemon.TwoRun.Ex.FB 1 Pm.Daemon.TwoRun.Ex.PBx Pm.Daemon.TwoRun.Ex.wa Pm.Daemon.TwoRun.Ex.wb Pm.Daemon.TwoRun.Ex.runsG ∧
+    (∀ nb, Ex.Q nb = false → ∃ pl ∈ Pm.Daemon.TwoRun.Ex.PBx, pl.node = some nb) :=
+  ⟨Pm.Daemon.TwoRun.Ex.rel0, Pm.Daemon.TwoRun.Ex.goodG, Pm.Daemon.TwoRun.Ex.hQB⟩
+example :
+    (cliRec (passes Pm.Daemon.TwoRun.Ex.wa (Pm.Daemon.TwoRun.Ex.runsG.map (·.1))) 1).map (fun c => (c.toBuf, c.cmd.map (·.pending))) =
+      some (bstr "208 Command in progress\r\n", some 1) ∧
+    (cliRec (passes Pm.Daemon.TwoRun.Ex.wb (Pm.Daemon.TwoRun.Ex.runsG.map (·.2))) 1).map (fun c => (c.toBuf, c.cmd.map (·.pending))) =
+      some (bstr "208 Command in progress\r\n", some 1) ∧
+    (passes Pm.Daemon.TwoRun.Ex.wa (Pm.Daemon.TwoRun.Ex.runsG.map (·.1))).devs.map (fun nd => (nd.2.acts.map (·.clientId), nd.2.fromBuf)) =
+      [([1], []), ([2], []), ([], [])] ∧
+    (passes Pm.Daemon.TwoRun.Ex.wb (Pm.Daemon.TwoRun.Ex.runsG.map (·.2))).devs.map (fun nd => (nd.2.acts.map (·.clientId), nd.2.fromBuf)) =
+      [([1], []), ([2], [1, 2, 3]), ([], [])] ∧
+    Pm.Daemon.TwoRun.replyPassX Pm.Daemon.TwoRun.Ex.wa (Pm.Daemon.TwoRun.Ex.runsG.map (·.1)) 1 = some 0 ∧
+    Pm.Daemon.TwoRun.replyPassX Pm.Daemon.TwoRun.Ex.wb (Pm.Daemon.TwoRun.Ex.runsG.map (·.2)) 1 = some 0 := by decide +kernel
+/- `NotObs` on example lines, device `B` with the one plug wired to `b1`: `on a1`, `device a1`, `help` are accepted;
+   `status b1`, `on a1,b1`, a bare `status` and a bare `device` are rejected by the (sound) checker `notObsB` -/
+example : (["on a1\n", "device a1\n", "help\n", "status b1\n", "on a1,b1\n", "status\n", "device\n"].map fun l =>
+    Pm.Daemon.TwoRun.Ex.notObsB Pm.Daemon.TwoRun.Ex.PBx [] (bstr l)) = [true, true, true, false, false, false, false] := by decide +kernel
+
+/-- **Why the clients that observe `B` must not go on typing** (the statement "for every client none of whose lines observes `B`:
+    identical record and output", *without* a condition on the other clients, is false of the model — and of the code).
+    Worlds `wh` (healthy `B`, its answer in the buffer) and `wb` (sick `B'`) are related by `MRel`; client 1 is tracked and has
+    nothing to do with `B`; client 2 has `on b1` in flight on `B`.  The only lines typed in four passes are `on a1` by client 2
+    (pass 2) and `device a1` by client 1 (pass 4); neither observes `B` (`notObsB`).  Yet client 1 is told `actions=002` in the
+    healthy run and `actions=001` in the sick one: client 2's `on a1` was executed in the run in which `B` had completed its
+    first command, and answered `208 Command in progress` in the other.  This is a genuine flow from `B` to client 1 through a
+    client that waits for `B` — not a defect —, and the reason for the hypothesis `CliHyps.inert`. -/
+theorem C05_observer_typing_counterexample :
+    Pm.Daemon.TwoRun.MRel Ex.Q Pm.Daemon.TwoRun.Ex.FB 1 Pm.Daemon.TwoRun.Ex.PBx Pm.Daemon.TwoRun.Ex.wh Pm.Daemon.TwoRun.Ex.wb ∧
+    Pm.Daemon.TwoRun.Ex.notObsB Pm.Daemon.TwoRun.Ex.PBx [] (bstr "on a1\n") = true ∧
+    Pm.Daemon.TwoRun.Ex.notObsB Pm.Daemon.TwoRun.Ex.PBx [] (bstr "device a1\n") = true ∧
+    (cliRec (passes Pm.Daemon.TwoRun.Ex.wh Pm.Daemon.TwoRun.Ex.runH) 1).map (·.toBuf) =
+      some (bstr "304 A: state=connected reconnects=000 actions=002 type= hosts=a1\r\n103 Query complete\r\npowerman> ") ∧
+    (cliRec (passes Pm.Daemon.TwoRun.Ex.wb Pm.Daemon.TwoRun.Ex.runS) 1).map (·.toBuf) =
+      some (bstr "304 A: state=connected reconnects=000 actions=001 type= hosts=a1\r\n103 Query complete\r\npowerman> ") :=
+  ⟨Pm.Daemon.TwoRun.Ex.relH, by decide +kernel, by decide +kernel, by decide +kernel, by decide +kernel⟩
 
 end Pm.Props.C05
